@@ -659,6 +659,37 @@ func main() {
 		emit("Websockets", e)
 	}
 
+	// ---- Sessions ----
+	{
+		ss := mustLoad("agent/sessions")
+		e := newEmitter("agent/sessions/sessions.go")
+		// does cachedCookieJar return early for the empty session ID (no cache entry for "no session")?
+		guard := int64(0)
+		fd := ss.methodDecl("Cache", "cachedCookieJar")
+		if fd != nil {
+			ast.Inspect(fd.Body, func(n ast.Node) bool {
+				ifs, ok := n.(*ast.IfStmt)
+				if !ok {
+					return true
+				}
+				if be, ok := ifs.Cond.(*ast.BinaryExpr); ok && be.Op == token.EQL {
+					if id, ok := be.X.(*ast.Ident); ok && id.Name == "sessionID" {
+						if s, ok := strLit(be.Y); ok && s == "" {
+							for _, st := range ifs.Body.List {
+								if _, ok := st.(*ast.ReturnStmt); ok {
+									guard = 1
+								}
+							}
+						}
+					}
+				}
+				return true
+			})
+		}
+		e.zs("emptySessionIDNotCached", []int64{guard}, fd != nil, []int64{0}, "agent/sessions cachedCookieJar: 1 if it returns early (no cache entry) for the empty session ID")
+		emit("Sessions", e)
+	}
+
 	// ---- TcpBridge ----
 	{
 		t := mustLoad("utils/tcpbridge/connection")
@@ -709,5 +740,5 @@ func main() {
 		b, _ := json.MarshalIndent(summary, "", " ")
 		os.WriteFile(*jsonOut, b, 0o644)
 	}
-	fmt.Printf("srcfacts: wrote %d component files, changed: %v\n", 5, changed)
+	fmt.Printf("srcfacts: wrote %d component files, changed: %v\n", 6, changed)
 }
